@@ -59,7 +59,7 @@ def csv(xs):
 # C18: index enumeration
 
 def enum_case(variant, dims):
-    return line(variant, dims, ["indexes", "keys", "dkeys", "len", "indexes"])
+    return line(variant, dims, ["indexes", "keys", "dkeys", "indexes"])
 
 
 # ------------------------------------------------------------------------------------------------
